@@ -13,7 +13,12 @@ macro_rules! dispatch {
         match $id {
             "C01" => $f::<props::c01::C01>($($args),*),
             "C04" => $f::<props::c04::C04>($($args),*),
+            "C13" => $f::<props::c13::C13>($($args),*),
+            "C15" => $f::<props::c15::C15>($($args),*),
             "C16" => $f::<props::c16::C16>($($args),*),
+            "C18" => $f::<props::c18::C18>($($args),*),
+            "C19" => $f::<props::c19::C19>($($args),*),
+            "C20" => $f::<props::c20::C20>($($args),*),
             other => {
                 eprintln!("unknown property {other}");
                 std::process::exit(2)
